@@ -44,3 +44,6 @@ pub fn be_write_u16_slice(dest: &mut [u8], n: u16)
     requires old(dest)@.len() >= 2
     ensures final(dest)@ == be_bytes_u16(n) + old(dest)@.subrange(2, old(dest)@.len() as int)
 { unimplemented!() }
+// AXIOM: the length of a slice is a usize (Rust guarantees at most isize::MAX bytes per allocation); Verus' slice view is an
+// unbounded Seq, so offset arithmetic inside a slice needs this bound
+pub axiom fn axiom_slice_len(s: &[u8]) ensures s@.len() <= usize::MAX;
